@@ -80,6 +80,12 @@ CHECKS = {
             'Every cell of the finite table is executed on the real assertion classes; silent iff the relation holds, errors and '
             'unevaluable relations fail, complements never agree where exactly one relation holds, equality is order independent.',
             '2/C07'),
+    'C19': ('exhaustive table 20 operators x ordered pairs of 10 core-typed variables (two values per type; bool/set/dict added in '
+            'thorough), all depth-2 expression trees over 5 typed variables (arithmetic inner operator in quick, any in thorough), '
+            'and all nested JSON-like values to depth 2/3, analysed by the real TIFA / pedal.types; oracle: CPython executing the '
+            'same expression (TypeError <=> incompatible_types, result conforms to the inferred type) and is_subtype stability',
+            'Every cell/tree/value in the bounded space is analysed and executed; a missed TypeError or a nonconforming inferred '
+            'type is a violation. Operand values are chosen so that outcomes depend on operand types only.', '2/C19'),
 }
 
 PENDING = ['C02', 'C03', 'C04', 'C05', 'C06', 'C07', 'C08', 'C09', 'C10', 'C11', 'C12', 'C13', 'C14', 'C15',
